@@ -1,7 +1,12 @@
 use std::fs::{File, hard_link, read_dir, remove_file, rename};
 use std::ops::Bound;
 use std::path::PathBuf;
+#[cfg(not(rescrv_blue_verif_shuttle))]
 use std::sync::{Arc, Condvar, Mutex, MutexGuard};
+#[cfg(rescrv_blue_verif_shuttle)]
+use std::sync::Arc;
+#[cfg(rescrv_blue_verif_shuttle)]
+use shuttle::sync::{Condvar, Mutex, MutexGuard};
 
 use mani::{Edit, Manifest};
 use setsum::Setsum;
@@ -211,9 +216,17 @@ impl KeyValueStore {
     pub fn _memtable_thread(&self) -> Result<(), SError> {
         let _memtable_mutex = self.memtable_mutex.lock().unwrap();
         loop {
+            #[cfg(rescrv_blue_verif)]
+            if self.tree.verif().should_return_at_top() {
+                return Ok(());
+            }
             let (imm, imm_log, imm_path, imm_trigger) = {
                 let mut state = self.state.lock().unwrap();
                 while state.imm_trigger < state.mem_seq_no {
+                    #[cfg(rescrv_blue_verif)]
+                    if self.tree.verif().should_return_instead_of_wait() {
+                        return Ok(());
+                    }
                     state = self.cnd_needs_memtable_flush.wait(state).unwrap();
                 }
                 let imm = Arc::clone(&state.mem);
@@ -278,6 +291,8 @@ impl KeyValueStore {
             state.imm = None;
             state.imm_trigger = imm_trigger;
             self.cnd_memtable_rolled_over.notify_all();
+            #[cfg(rescrv_blue_verif)]
+            self.tree.verif().note_work_done();
         }
     }
 
@@ -350,12 +365,18 @@ impl KeyValueStore {
                 Arc::clone(&state.mem_log),
             )
         };
+        #[cfg(rescrv_blue_verif)]
+        crate::verif::yield_point("write:seq-assigned");
         let mut log_batch = sst::log::WriteBatch::default();
         for entry in batch.entries.iter() {
             log_batch.insert(KeyValueRef::from(entry))?;
         }
         self.poison(log.append(log_batch))?;
+        #[cfg(rescrv_blue_verif)]
+        crate::verif::yield_point("write:log-appended");
         self.poison(memtable.write(&mut batch))?;
+        #[cfg(rescrv_blue_verif)]
+        crate::verif::yield_point("write:memtable-inserted");
         drop(memtable);
         drop(log);
         let mut state = self.state.lock().unwrap();
@@ -417,5 +438,44 @@ impl KeyValueStore {
         let cursor = PruningCursor::new(cursor, timestamp)?;
         let cursor = BoundsCursor::new(cursor, start_bound, end_bound)?;
         Ok(cursor)
+    }
+}
+
+/////////////////////////////////////////// verification ///////////////////////////////////////////
+
+#[cfg(rescrv_blue_verif)]
+impl KeyValueStore {
+    /// The tree beneath this key-value store.
+    pub fn verif_tree(&self) -> &LsmTree {
+        &self.tree
+    }
+
+    /// The control block shared by the daemon loops of this store.
+    pub fn verif(&self) -> &crate::verif::Control {
+        self.tree.verif()
+    }
+
+    /// True iff no memtable flush is triggered or in progress.
+    pub fn verif_flush_idle(&self) -> bool {
+        let state = self.state.lock().unwrap();
+        state.imm.is_none() && state.imm_trigger < state.mem_seq_no
+    }
+
+    /// Block until no memtable flush is triggered or in progress.
+    pub fn verif_wait_flush_idle(&self) {
+        let mut state = self.state.lock().unwrap();
+        while !(state.imm.is_none() && state.imm_trigger < state.mem_seq_no) {
+            state = self.cnd_memtable_rolled_over.wait(state).unwrap();
+        }
+    }
+
+    /// Ask the daemon loops to return; wakes every loop that is waiting.
+    pub fn verif_request_stop(&self) {
+        self.tree.verif().set_stop(true);
+        {
+            let _state = self.state.lock().unwrap();
+            self.cnd_needs_memtable_flush.notify_all();
+        }
+        self.tree.verif_request_stop();
     }
 }
